@@ -331,11 +331,16 @@ MergeDuplicateEdges(S, rename, rule, multKey) ==
 MergeUnspecified(S, rename) ==
   rename = "tuple" /\ \E i \in DOMAIN DupClasses(S) :
       TupleId(DupClasses(S)[i]) \in EdgeSet(S) \/ TupleId(DupClasses(S)[i]) >= 2000000
+\* "union" / "intersection" collect the attribute values in python sets: list values
+\* (unhashable) are outside the documented domain
+MergeUnhashable(S, rule) ==
+  rule \in {"union", "intersection"} /\ \E i \in DOMAIN DupClasses(S) : \E e \in DupClasses(S)[i] :
+      \E k \in DOMAIN S.eattr[e] : S.eattr[e][k][1] = 1
+NotSortable(S) == IF \E i \in DOMAIN DupClasses(S) : MixedKinds(DupClasses(S)[i])
+                    THEN {OtherErr(S, "TypeError"), OtherErr(S, "ValueError")} ELSE {}
 MergeOutcomes(S, rename, rule, multKey) ==
-  IF MergeUnspecified(S, rename) THEN {} ELSE
-  {MergeDuplicateEdges(S, rename, rule, multKey)} \cup
-  (IF \E i \in DOMAIN DupClasses(S) : MixedKinds(DupClasses(S)[i])
-     THEN {OtherErr(S, "TypeError")} ELSE {})
+  IF MergeUnspecified(S, rename) \/ MergeUnhashable(S, rule) THEN {} ELSE
+  {MergeDuplicateEdges(S, rename, rule, multKey)} \cup NotSortable(S)
 
 (* ---- components, relabelling, cleanup ----------------------------------------- *)
 RECURSIVE Reach(_, _)
@@ -383,8 +388,7 @@ Cleanup(S, isolates, singletons, multiedges, connected, relabel) ==
              ELSE IF s3.nodes = <<>> THEN {s3}
              ELSE {RestrictTo(s3, C) : C \in LargestComponents(s3)}
   IN {Ok(IF relabel THEN ConvertLabels(s4) ELSE s4) : s4 \in s4s}
-     \cup (IF ~multiedges /\ \E i \in DOMAIN DupClasses(S) : MixedKinds(DupClasses(S)[i])
-            THEN {OtherErr(S, "TypeError")} ELSE {})
+     \cup (IF ~multiedges THEN NotSortable(S) ELSE {})
 
 (* ---- dispatcher --------------------------------------------------------------- *)
 OpDefaults ==
@@ -436,8 +440,8 @@ Outcomes(S, op, ord) ==
 \* calls whose effect the documentation does not determine (never generated by drivers,
 \* skipped by the trace specification)
 Unspecified(S, op) ==
-  op.name \in {"merge_duplicate_edges", "cleanup"} /\
-     MergeUnspecified(S, IF op.name = "cleanup" THEN "first" ELSE op.s1)
+  \/ op.name = "merge_duplicate_edges" /\ (MergeUnspecified(S, op.s1) \/ MergeUnhashable(S, op.s2))
+  \/ op.name = "cleanup" /\ ~op.b3 /\ MergeUnspecified(S, "first")
 
 (* ---- action properties (evaluated on spec transitions and on logged steps) ---- *)
 AddOps == {"add_edge", "add_edges_from", "add_weighted_edges_from", "add_node_to_edge", "update"}
